@@ -27,6 +27,8 @@ func runC19(c *Ctx) {
 	c19Once(c)
 	c19ExportAll(c)
 	c19Recheck(c, "C19")
+	c19TypeKey(c)
+	c19SamplesPrivate(c)
 }
 
 // naturalLoops returns header -> set of blocks of the loop.
